@@ -1781,6 +1781,8 @@ def slist_extend(it, fr, l, values):
     """in-place extension of a symbolic-length list: the length is decided (one fork per possible length), the object stays the same"""
     eng = it.eng
     vals = list(fr.iterate(values))
+    if not vals:
+        return                      # extending by nothing changes nothing
     _mutation(it, l, 'list extend')
     C = len(l.items)
     k = C
